@@ -6,6 +6,8 @@ from ..lib import (params, returns_of, is_none_const, dominating_literals)
 from . import storefam as S
 from .cachefam import on_every_path
 
+from . import extra as X
+
 EXPLANATION = ("Who-may-call on OverlayStore.fallback (fully decided for call-borne effects, with an embedded canary), tombstone "
                "test before either layer on every read, overlay consulted before the fall-back, writes go to the overlay only and "
                "clear the tombstone, removal adds a tombstone whenever the fall-back has the key, listings honour tombstones also "
@@ -202,3 +204,4 @@ def run(chk):
     rule_exit_shapes(chk, "C15.5")
     chk.xref("OverlayStore.is_supported calls key() (TypeError when the overlay does not support the key)")
     chk.xref("OverlayStore.sync calls fallback.sync() - a no-op for memory/directory stores (whitelisted read)")
+    X.rule_overlay_recursion_own_view(chk, "C15.6")
